@@ -22,6 +22,11 @@ def main():
             arrs = P.build_cubed(req["prog"], spec)
     except Exception:
         sys.exit(3)
+    if req.get("sender_computes"):
+        try:
+            cubed.compute(*[arrs[i] for i in req["out_ids"]])
+        except Exception:
+            pass
     with open(req["resp"], "wb") as f:
         f.write(cloudpickle.dumps([arrs[i] for i in req["out_ids"]]))
 
